@@ -316,17 +316,20 @@ Section Opt.
     assert (Hab2 : (IZR (a + b) <= IZR (h * w - 1))%R) by (apply IZR_le; lia).
     assert (Hab0 : (0 <= IZR (a + b))%R) by (apply IZR_le; lia).
     pose proof s2_lt as Hs. pose proof s2_pos as Hs0.
+    (* the only fact about the generated bound: an integer inequality *)
+    assert (Hz : 3 * (h * w - 1) + 2 * (h + w - 2) < 2 * min_cost_init h w) by (unfold min_cost_init; nia).
     assert (Hfin : (IZR (h * w - 1) * (3 / 2) + IZR (h + w - 2) < IZR (min_cost_init h w))%R).
-    { unfold min_cost_init. rewrite Z.pow_2_r. push_IZR.
-      assert (H1 : (1 <= IZR h)%R) by (apply IZR_le; lia).
-      assert (H2 : (1 <= IZR w)%R) by (apply IZR_le; lia).
-      nra. }
+    { apply IZR_lt in Hz. rewrite plus_IZR, !mult_IZR in Hz. lra. }
     nra.
   Qed.
 
-  (* ---------- reconstruction returns d_from_start at the goal ---------- *)
+  (* ---------- reconstruction writes d_from_start, on closed cells only ---------- *)
+  Lemma cell_eq_dec (x y : cell) : {x = y} + {x <> y}.
+  Proof. destruct (cell_eqb_spec x y); [left|right]; assumption. Qed.
+
   Lemma reconstruct_goal st hist : InvS st (goal :: hist) ->
-    exists img, reconstruct h w start goal st = Done img /\ img goal = Some (dst st goal).
+    exists img, reconstruct h w start goal st = Done img /\ img goal = Some (dst st goal) /\
+                forall c v, img c = Some v -> v = dst st c /\ In c (goal :: hist).
   Proof.
     intros I. unfold reconstruct. cbv zeta.
     assert (Hg : In goal (goal :: hist)) by now left.
@@ -346,9 +349,24 @@ Section Opt.
                 (upd (fun _ => None) start (Some (dst st start))) [] hist eq_refl)
       as (vis & img' & Hw & Hpc & Hin & Hout); [lia|].
     rewrite Hw. exists img'. split; [reflexivity|].
-    inversion Hpc as [Hs|c l Hne Hp' Hc]; subst.
-    - rewrite Hout by (intros []). apply upd_same.
-    - apply Hin. now left.
+    assert (Hns : ~ In start vis) by (exact (pchain_no_start xc_zero xc_add xc_sqrtZ xc_ofZ xc_ltb h start st vis goal Hpc)).
+    assert (Himg : forall c, In c (vis ++ [start]) -> img' c = Some (dst st c)).
+    { intros c Hc. apply in_app_or in Hc as [Hc|[<-|[]]]; [now apply Hin|].
+      rewrite Hout by auto. apply upd_same. }
+    destruct (pchain_vchain xc_zero xc_add xc_sqrtZ h w data barriers offs start st _ img' I vis goal [] hist eq_refl Hpc Himg)
+      as [_ Hsub].
+    split.
+    - inversion Hpc as [Hs|c l Hne Hp' Hc]; subst.
+      + rewrite Hout by (intros []). apply upd_same.
+      + apply Hin. now left.
+    - intros c v Hc.
+      assert (Hcv : In c (vis ++ [start])).
+      { destruct (in_dec cell_eq_dec c vis) as [Hv|Hv]; [apply in_or_app; now left|].
+        rewrite Hout in Hc by exact Hv.
+        destruct (cell_eqb_spec c start) as [->|Hne]; [apply in_or_app; right; now left|].
+        rewrite upd_other in Hc by auto. discriminate. }
+      split; [|now apply Hsub].
+      rewrite (Himg c Hcv) in Hc. now inversion Hc.
   Qed.
 
   (* ---------- the main loop ---------- *)
@@ -357,9 +375,12 @@ Section Opt.
     | OutOfFuel => True
     | Stuck => ~ inside goal
     | Done img =>
-      (forall c, img c = None) \/
-      (exists a b, img goal = Some (a, b, 0) /\ route goal a b /\ a + b <= h * w /\
-                   forall a' b', route goal a' b' -> (v2 a b <= v2 a' b')%R)
+      ((forall c, img c = None) \/
+       (exists a b, img goal = Some (a, b, 0) /\ route goal a b /\ a + b <= h * w /\
+                    forall a' b', route goal a' b' -> (v2 a b <= v2 a' b')%R)) /\
+      (* every value written on the path is the least route cost to that cell *)
+      (forall c v, img c = Some v ->
+         exists a b, v = (a, b, 0) /\ route c a b /\ forall a' b', route c a' b' -> (v2 a b <= v2 a' b')%R)
     end.
 
   Lemma loop_opt : forall fuel st hist,
@@ -367,7 +388,7 @@ Section Opt.
     postO (search_loop xc_add xc_sqrtZ xc_ofZ xc_ltb h w data barriers offs start goal fuel st).
   Proof.
     induction fuel as [|f IH]; intros st hist I F O R; [exact Logic.I|].
-    simpl. destruct (any_open h w st) eqn:Eo; [|left; reflexivity].
+    simpl. destruct (any_open h w st) eqn:Eo; [|split; [left; reflexivity|intros c v Hc; discriminate]].
     pose proof (min_cost_pixel_spec st hist I O) as Hmin. cbv zeta in Hmin.
     set (p := min_cost_pixel xc_ofZ xc_ltb h w st) in *.
     pose proof NONE_neg as Hneg.
@@ -384,8 +405,14 @@ Section Opt.
       pose proof (pop_O st hist p I O Hp Hopt) as O1.
       destruct (cell_eqb_spec p goal) as [Hpg|Hpg].
       + rewrite Hpg in *.
-        destruct (reconstruct_goal (pop st goal) hist I1) as (img & Hrec & Himg).
-        rewrite Hrec. right.
+        destruct (reconstruct_goal (pop st goal) hist I1) as (img & Hrec & Himg & Hall).
+        rewrite Hrec. split; [right|].
+        2:{ intros c v Hc. destruct (Hall c v Hc) as [-> Hch].
+            assert (Hcc : cls (pop st goal) c = true) by (now apply (s_cls _ _ _ _ _ _ _ _ _ _ _ I1)).
+            destruct (o_dst _ _ O1 c (or_intror Hcc)) as (a & b & Hd & _ & _ & Hr & _).
+            exists a, b. split; [exact Hd|]. split; [exact Hr|].
+            intros a' b' Hr'. pose proof (o_opt _ _ O1 c a' b' Hch Hr') as H1.
+            rewrite Hd, val_pure in H1. exact H1. }
         assert (Hcl : cls (pop st goal) goal = true) by (cbn [pop cls]; apply upd_same).
         destruct (o_dst _ _ O1 goal (or_intror Hcl)) as (a & b & Hd & _ & _ & Hr & Hle & _).
         exists a, b. split; [rewrite Himg, Hd; reflexivity|]. split; [exact Hr|].
@@ -533,7 +560,7 @@ Proof.
   pose proof (astar_kernel_spec xc_zero xc_add xc_sqrtZ xc_ofZ xc_ltb h w data barriers (offsets_of conn) s g Hs) as HP.
   rewrite Heq in HO, HP. cbn [postO post] in HO, HP.
   destruct (img g) as [v|] eqn:Eg.
-  - destruct HO as [HO|(a & b & E & Hr & _ & Hopt)]; [rewrite HO in Eg; discriminate|].
+  - destruct HO as [[HO|(a & b & E & Hr & _ & Hopt)] _]; [rewrite HO in Eg; discriminate|].
     inversion E; subst v. exists a, b. split; [reflexivity|]. split; [exact Hr|].
     intros a' b' Hr'. specialize (Hopt a' b' Hr'). split; [exact Hopt|].
     apply p2_ltb_false. exact Hopt.
@@ -541,6 +568,24 @@ Proof.
     + destruct (vchain_head _ _ _ _ _ _ _ _ _ _ _ _ Hv) as (l' & ->).
       apply (proj2 (Hin g)); [now left|exact Eg].
     + apply Hn. eapply route_reach; eauto.
+Qed.
+
+(* every value on the returned path — not only the goal's — is the least route cost to its cell *)
+Lemma astar_path_optimal h w data barriers conn s g img :
+  inside h w s ->
+  astar_kernel xc_zero xc_add xc_sqrtZ xc_ofZ xc_ltb h w data barriers (offsets_of conn) s g = Done img ->
+  forall c v, img c = Some v ->
+    exists a b, v = (a, b, 0) /\ route h w data barriers (offsets_of conn) s c a b /\
+      forall a' b', route h w data barriers (offsets_of conn) s c a' b' ->
+        (IZR a + IZR b * sqrt 2 <= IZR a' + IZR b' * sqrt 2)%R /\ p2_ltb (a', b') (a, b) = false.
+Proof.
+  intros Hs Heq c v Hc.
+  pose proof (astar_kernel_opt h w data barriers (offsets_of conn) s g (offsets_of_unit conn) Hs) as HO.
+  rewrite Heq in HO. cbn [postO] in HO. destruct HO as [_ HO].
+  destruct (HO c v Hc) as (a & b & -> & Hr & Hopt).
+  exists a, b. split; [reflexivity|]. split; [exact Hr|].
+  intros a' b' Hr'. specialize (Hopt a' b' Hr'). split; [exact Hopt|].
+  apply p2_ltb_false. exact Hopt.
 Qed.
 
 Lemma astar_never_stuck h w data barriers conn s g :
